@@ -1,6 +1,8 @@
 """C15 -- constructed models are well-formed (structural clauses)."""
 from __future__ import annotations
 
+from typing import Any
+
 import ast
 
 from ..fieldmodel import build_tree_classes, single_return_expr
@@ -119,6 +121,74 @@ def run(ctx: RuleContext, p: Program) -> None:
     ctx.try_rule(grammar_rules.rule_gram_fields, p, tcs, 'GRAM-FIELDS')
     from . import bcline
     ctx.try_rule(bcline.rule_bc_line, p, 'BC-LINE')
+    ctx.try_rule(rule_fv_path, p, 'FV-PATH')
     ctx.not_decided += ['that the printed text of a constructed model parses (runtime / lexer)',
                         'that the parsed result has equal fields and values (runtime)']
     ctx.assumptions += ['detach()/reattach() semantics as decided under C05', 'separator tokens are deep-copied (SEP-PROV under C03/C11)']
+
+
+# ====================================================================== FV-PATH (added after seeded round 3)
+def rule_fv_path(ctx: RuleContext, p: Program, rid: str) -> None:
+    """every argument of a hand-written constructor is looked at on every path that returns a model"""
+    import ast
+    from ..model import AnalysisError, norm, stmts_no_doc
+    from ..walker import Walker
+    ctx.rule(rid, 'in every hand-written from_value / from_children (classes outside models/generated), each parameter is read at least once '
+                  'on every path that reaches a return: a path that never looks at an argument builds the same model whatever was passed '
+                  'for it, so a part the caller asked for is silently missing from the constructed text')
+    n = 0
+    for m in p.modules.values():
+        if '.models' not in m.name or '.generated' in m.name or '.internal' in m.name or m.name.endswith('_test'):
+            continue
+        for fn in p.functions_in(m):
+            if fn.kind != 'classmethod' or fn.name not in ('from_value', 'from_children') or fn.cls is None:
+                continue
+            a = fn.node.args
+            params = [x.arg for x in [*a.posonlyargs, *a.args, *a.kwonlyargs]][1:]
+            if not params:
+                continue
+            body = stmts_no_doc(fn.node.body)
+            if len(body) == 1 and isinstance(body[0], ast.Return):
+                # single expression: every parameter must occur in it
+                used = {x.id for x in ast.walk(body[0]) if isinstance(x, ast.Name)}
+                missing = [q for q in params if q not in used]
+                n += 1
+                ctx.check(not missing, rid, f'{m.name.split(".", 1)[1]}:{fn.qualname}', 'all parameters used',
+                          f'{fn.qualname} never reads {missing}', fn.where, note=f'{len(params)} parameters')
+                continue
+            bad: list[tuple[int, list[str]]] = []
+
+            def transfer(state: Any, ev: tuple) -> Any:
+                seen, facts = state
+                if ev[0] == 'eval' and isinstance(ev[1], ast.Name) and ev[1].id in params:
+                    return [(seen | {ev[1].id}, facts)]
+                if ev[0] == 'assume':
+                    t, truth = ev[1], ev[2]
+                    if isinstance(t, ast.UnaryOp) and isinstance(t.op, ast.Not):
+                        t, truth = t.operand, not truth
+                    if isinstance(t, ast.Compare) and len(t.ops) == 1 and isinstance(t.ops[0], (ast.Is, ast.IsNot)) and isinstance(t.left, ast.Name) \
+                            and t.left.id in params and isinstance(t.comparators[0], ast.Constant) and t.comparators[0].value is None:
+                        is_none = truth if isinstance(t.ops[0], ast.Is) else not truth
+                        if (t.left.id, not is_none) in facts:
+                            return []                       # contradicts an earlier test of the same argument: infeasible path
+                        return [(seen, facts | {(t.left.id, is_none)})]
+                if ev[0] == 'store' and isinstance(ev[1], ast.Name) and ev[1].id in params:
+                    return [(seen, frozenset(f for f in facts if f[0] != ev[1].id))]
+                if ev[0] == 'return':
+                    missing = [q for q in params if q not in seen]
+                    if missing:
+                        bad.append((getattr(ev[1], 'lineno', fn.node.lineno), missing))
+                return [(seen, facts)]
+            Walker(transfer).run(body, [(frozenset(), frozenset())])
+            n += 1
+            site = f'{m.name.split(".", 1)[1]}:{fn.qualname}'
+            if bad:
+                line, missing = sorted(bad)[0]
+                ctx.fail(rid, site, f'return without reading {sorted(set(missing))}',
+                         f'{fn.qualname} can return (line {line}) on a path that never reads {sorted(set(missing))}: whatever the caller passes for '
+                         f'{"them" if len(set(missing)) > 1 else "it"} is dropped there, so the constructed model prints without that part and does '
+                         f'not parse back to what was asked for', f'{m.relpath}:{line}')
+            else:
+                ctx.ok(rid, site, f'{len(params)} parameters read on every returning path')
+    if n < 8:
+        raise AnalysisError(f'FV-PATH: only {n} hand-written constructors found')
